@@ -105,8 +105,20 @@ class Tree:
     children: List["Tree"] = dataclasses.field(default_factory=list)
     spare: Optional["Tree"] = None
     by_key: Dict[str, "Tree"] = dataclasses.field(default_factory=dict)
+from typing import Self
+@dataclasses.dataclass
+class SNode:
+    v: int
+    nxt: Optional[Self] = None
+    kids: List[Self] = dataclasses.field(default_factory=list)
+@dataclasses.dataclass
+class SOuter:
+    name: str
+    node: SNode
+    more: List[SNode] = dataclasses.field(default_factory=list)
+    opt: Optional[SNode] = None
 REC_RS = six_retorts()
-REC = {(T_, k): (r.get_loader(T_), r.get_dumper(T_)) for T_ in (Node, Tree) for k, r in REC_RS.items()}
+REC = {(T_, k): (r.get_loader(T_), r.get_dumper(T_)) for T_ in (Node, Tree, SNode, SOuter) for k, r in REC_RS.items()}
 def rec_value(sel, a, b, c):
     if sel == 0: return Node(a)
     if sel == 1: return Node(a, left=Node(b))
@@ -116,6 +128,9 @@ def rec_value(sel, a, b, c):
     if sel == 5: return Node(a, left=Node(b, middle=Node(c)), right=Node(c, left=Node(a)))
     if sel == 6: return Tree(a, children=[Tree(b, children=[Tree(c)])], spare=Tree(c, spare=Tree(b)))
     if sel == 7: return Tree(a, by_key={"k": Tree(b, by_key={"m": Tree(c, children=[Tree(a)])})})
+    if sel == 9: return SNode(a, nxt=SNode(b, kids=[SNode(c)]))
+    if sel == 10: return SOuter("o", SNode(a, nxt=SNode(b)), more=[SNode(c, kids=[SNode(a)])], opt=SNode(b, nxt=SNode(c)))
+    if sel == 11: return SOuter("", SNode(a))
     return Tree(a, children=[Tree(b), Tree(c, spare=Tree(a, children=[Tree(b)]))])
 def rt_rec(sel, a, b, c):
     x = rec_value(sel, a, b, c)
@@ -245,8 +260,8 @@ def chk_{name}({args}):
           "t = None if (isnone and a > 0) else (Stub(a), None if isnone else Stub(a + 1))\n"
           "return rt2('ListList', v, False) and rt2('DictList', d, False) and rt2('OptTuple', t, False)",
           pre=["len(xs) <= 2"], timeout=tmo, family=fam2, bounds="depth-2 glue: List[List], Dict[str, List[Optional]], Optional[Tuple[., Optional]]")
-    m2.ob("rt_recursive", "sel: int, a: int, b: int, c: int", "return rt_rec(sel, a, b, c)", pre=["0 <= sel <= 8"], timeout=tmo,
-          family="recursive models with several self references (real loaders)", bounds="9 shapes nested up to 3 levels through first/second/third self-referencing field, list and dict of self; any int payloads; 6 modes")
+    m2.ob("rt_recursive", "sel: int, a: int, b: int, c: int", "return rt_rec(sel, a, b, c)", pre=["0 <= sel <= 12"], timeout=tmo,
+          family="recursive models with several self references, typing.Self used inside another model (real loaders)", bounds="13 shapes nested up to 3 levels through first/second/third self-referencing field, list and dict of self; any int payloads; 6 modes")
     mods = [m, m2, ktd_module(tier)]
     names = ["plain", "rename", "nested", "nested2", "camel", "upper_kebab", "no_trim", "map_gt_style", "ellipsis", "ellipsis_style", "pairs_map",
              "stack_override", "stack_style", "forbid_nested", "rest_field", "rest_field_rename", "saturator", "omit_all", "omit_one", "omit_nested",
